@@ -385,6 +385,101 @@ pub fn reuse_history(ctx: &mut Ctx, tag: &str) -> R {
     Ok(())
 }
 
+/// The CORRECT total size declared at a random point of the feeding (before, after one byte,
+/// in the middle, after all bytes, twice with the same value): every finalize form must
+/// still give the reference CTPH of the whole input.
+pub fn declared_correct_midway(ctx: &mut Ctx, data: &[u8], desc: &str) -> R {
+    ctx.input();
+    let n = data.len();
+    let point = match ctx.rng.below(7) {
+        0 => 0,
+        1 => 1.min(n),
+        2 => n,
+        3 => n.saturating_sub(1),
+        4 => n.min(ctx.rng.range(2, 200)),
+        _ => ctx.rng.range(0, n),
+    };
+    let twice = ctx.rng.chance(1, 4);
+    let second_point = if twice { ctx.rng.range(point, n) } else { n };
+    let simple = ctx.rng.chance(1, 2);
+    let mut plan = String::new();
+    let res = guard(|| {
+        let mut g = Generator::new();
+        let mut bad: Option<(&'static str, String)> = None;
+        let mut feed = |g: &mut Generator, part: &[u8], plan: &mut String, ctx: &mut Ctx| {
+            if simple || part.len() > 20_000 {
+                g.update(part);
+                plan.push_str(&format!("update({}) ", part.len()));
+            } else {
+                let p = feed_randomly(ctx, g, part);
+                if p.len() > 300 {
+                    plan.push_str(&format!("[{} bytes in {} mixed calls] ", part.len(), p.split(' ').count()));
+                } else {
+                    plan.push_str(&p);
+                }
+            }
+        };
+        feed(&mut g, &data[..point], &mut plan, ctx);
+        let r = g.set_fixed_input_size(n as u64);
+        plan.push_str(&format!("set_fixed_input_size({}) ", n));
+        if r.is_err() {
+            bad = Some(("set-fixed-input-size-result", format!("real code: set_fixed_input_size({}) = {:?}\noracle: Ok(())", n, r)));
+        }
+        feed(&mut g, &data[point..second_point], &mut plan, ctx);
+        if twice {
+            let r = if ctx.rng.chance(1, 2) { g.set_fixed_input_size(n as u64) } else { g.set_fixed_input_size_in_usize(n) };
+            plan.push_str(&format!("set_fixed_input_size({}) again ", n));
+            if r.is_err() {
+                bad = Some(("set-fixed-input-size-result", format!("real code: the second, identical set_fixed_input_size({}) = {:?}\noracle: Ok(())", n, r)));
+            }
+            feed(&mut g, &data[second_point..], &mut plan, ctx);
+        }
+        plan.push_str("finalize");
+        bad.or_else(|| diff_generator(&g, 0, data, true))
+    });
+    ctx.checks.extend(GENERATOR_CHECKS);
+    ctx.checks.insert("declared-correct-size-midway");
+    let d = match res {
+        Ok(d) => d,
+        Err(msg) => Some(("generator-panic", format!("real code: PANICKED: {}\noracle: never panics", msg))),
+    };
+    if let Some((check, what)) = d {
+        return Err(Fail {
+            check,
+            details: format!(
+                "the correct total size declared while feeding\ninput {}: {}\ncalls on a new generator: {}\n{}\n(without the declaration a generator fed the same bytes gives the reference hash: {})",
+                desc, show_bytes(data), plan, what, diff_oneshot(data).is_none()
+            ),
+        });
+    }
+    Ok(())
+}
+
+/// Inputs of 100..4000 bytes with many piece boundaries (random, text-like, trigger-rich):
+/// the level above the size-derived one is usually live long before the end.
+fn boundary_rich_input(ctx: &mut Ctx) -> (Vec<u8>, String) {
+    let n = ctx.rng.range(100, 4000);
+    match ctx.rng.below(3) {
+        0 => {
+            let mut d = Vec::new();
+            gen::fill(&mut ctx.rng, &mut d, n, 0);
+            (d, format!("random bytes, size {}", n))
+        }
+        1 => {
+            let mut d = Vec::new();
+            gen::fill(&mut ctx.rng, &mut d, n, 5);
+            (d, format!("text-like bytes, size {}", n))
+        }
+        _ => {
+            let init = (0u8..31).find(|&l| (192usize << l) >= n).unwrap_or(0);
+            let lvl = init + ctx.rng.range(0, 2) as u8;
+            let pieces = ctx.rng.range(10, 70);
+            let style = *ctx.rng.pick(&[0u8, 5, 4, 3]);
+            (gen::adversarial(&mut ctx.rng, n, lvl, pieces, style), format!("trigger-rich: adversarial(size~{}, level={}, pieces={}, filler={})", n, lvl, pieces, style))
+        }
+    }
+}
+
 pub fn c01(ctx: &mut Ctx) -> R {
     // reused generator objects: the documented reset() only re-initialises what a new history needs
     for _ in 0..2 {
@@ -403,6 +498,12 @@ pub fn c01(ctx: &mut Ctx) -> R {
         let max_n = if round % 16 == 0 { 11 } else if round % 4 == 0 { 8 } else { 5 };
         let (data, desc) = gen::gen_input(&mut ctx.rng, max_n);
         c01_one(ctx, &data, &desc)?;
+        if data.len() <= 20_000 || round % 4 == 0 {
+            declared_correct_midway(ctx, &data, &desc)?;
+        }
+        let (d2, desc2) = boundary_rich_input(ctx);
+        c01_one(ctx, &d2, &desc2)?;
+        declared_correct_midway(ctx, &d2, &desc2)?;
         if round % 32 == 0 {
             reuse_history(ctx, "C01: reused generator")?;
         }
@@ -546,6 +647,9 @@ pub fn c03(ctx: &mut Ctx) -> R {
                 });
             }
         }
+        declared_correct_midway(ctx, &data, &desc)?;
+        let (d2, desc2) = boundary_rich_input(ctx);
+        declared_correct_midway(ctx, &d2, &desc2)?;
         // reader-based function under short reads
         if round % 2 == 0 {
             stream_one(ctx, &data, &desc, false)?;
@@ -639,6 +743,8 @@ pub fn declared_vs_fed(ctx: &mut Ctx, tag: &str) -> R {
 pub fn c12(ctx: &mut Ctx) -> R {
     while ctx.alive() {
         declared_vs_fed(ctx, "C12: declared size against the bytes fed")?;
+        let (d2, desc2) = if ctx.rng.chance(1, 2) { boundary_rich_input(ctx) } else { gen::gen_input(&mut ctx.rng, 6) };
+        declared_correct_midway(ctx, &d2, &desc2)?;
         reuse_history(ctx, "C12: reset() and declared sizes on a reused generator")?;
         ctx.input();
         let mut log = String::new();
@@ -778,7 +884,10 @@ pub fn c13(ctx: &mut Ctx) -> R {
         if diff_oneshot(&data).is_some() {
             return Err(fail_oneshot(&data, &desc));
         }
+        declared_correct_midway(ctx, &data, &desc)?;
         if round % 5 == 0 {
+            let (d2, desc2) = boundary_rich_input(ctx);
+            declared_correct_midway(ctx, &d2, &desc2)?;
             n = if n >= 14 { 0 } else { n + 1 };
             #[cfg(a4lg_ffuzzy_verif)]
             if n == 0 {
